@@ -11,7 +11,7 @@ EXPLANATION = (
     "random binding tables/call graphs are built as real ir.Module values and validated by the real ir.Validate; error lists "
     "are compared with the model one by one. The umbrella claim is checked as an acceptance sweep: every program of the "
     "type-directed WGSL generator must pass Parse, Lower, Validate and each of SPIR-V/HLSL/MSL/GLSL; a rejection is by "
-    "itself a concrete failing input and is shrunk by the AST reducer. Literal grammar (bounded exhaustive test, not a theorem; Naga.Model.LitSpec): every string of up to 5-7 characters over digit / dot / exponent / sign / suffix / hex alphabets that is, as a whole, one numeric literal of the WGSL grammar (regular expressions transcribed from the specification) must be one token of its kind for the lexer model, which C19's token correspondence ties to the real lexer; the hexadecimal float literals are the recorded finding.")
+    "itself a concrete failing input and is shrunk by the AST reducer. Literal grammar (bounded exhaustive test, not a theorem; Naga.Model.LitSpec): every string of up to 5-7 characters over digit / dot / exponent / sign / suffix / hex alphabets that is, as a whole, one numeric literal of the WGSL grammar (regular expressions transcribed from the specification) must be one token of its kind for the lexer model, which C19's token correspondence ties to the real lexer; the hexadecimal float literals are the recorded finding. Unbounded counterparts of four rows of that test are theorems (Naga.Props.LexLiteral: scan_int, scan_dot_digits, scan_dot_exp, scan_leading_dot — for digit runs of any length the model reads `D+;` as one integer literal and `D+.D*;`, `D+.eD+;`, `.D+;` as one float literal).")
 ASSUMPTIONS = [
     "Lean 4 kernel; axioms propext, Classical.choice, Quot.sound only",
     "Validate.spec* is my transcription of the WGSL break/continue/continuing/return rules",
@@ -68,7 +68,7 @@ def run(ck):
                "non-trivial = contains at least one loop or switch / at least one helper or control-flow statement")
     ck.trusted = ["Lean kernel", "axioms: propext, Classical.choice, Quot.sound", "WGSL rule transcription (Validate.spec*)",
                   "Go harness (skeleton/module builders, WGSL generator, shrinker)"]
-    if not ck.prove(["Naga.Props.C08"]):
+    if not ck.prove(["Naga.Props.C08", "Naga.Props.LexLiteral"]):
         ck.tie_broken("theorems", "Naga.Props.C08 no longer checks", str(ck.proof_failed))
     if not ck.build_harness() or not ck.driver():
         return
